@@ -3,6 +3,7 @@ import Req.Pool.Lockset
 import Req.Pool.Monitor
 import Req.Pool.H1PoolLane
 import Req.Pool.Pairing
+import Req.Pool.H2MuxLane
 /-! Driver lanes of C09. -/
 namespace Req.Driver.L.C09
 open Req.Proto
@@ -177,7 +178,54 @@ def lanePair : List String → String
     | none => "bad-op"
   | _ => "bad-op"
 
+/-! ### `c09h2mux <strict 0|1> <singleUse 0|1> <MAX_CONCURRENT_STREAMS> <nCallers> <ops>`
+One HTTP/2 `ClientConn`, forced schedule. ops comma-joined: `R.k` ReserveNewRequest for caller k ·
+`S.k.<head>.<upload>.<stall>` caller k starts `roundTrip` (HEAD / upload that stalls on flow control /
+parks in the stream hook with its id allocated) · `U.k` release caller k from the hook · `C.k` cancel ·
+`B.k` close the response body · `T` closeIfIdle · peer frames `PH.<tgt>.<kind 0 2xx|1 1xx|2 no status>.<fin>.<tag>`,
+`PD.<tgt>.<len>.<fin>.<tag>`, `PR.<tgt>.<code>`, `PW.<tgt>.<overflow>`, `PP.<tgt>`, `PG.<tgt>.<code>`,
+`PS.<max|->`, `PE` (peer closes). tgt = `k<n>` the stream caller n opened · `u<j>` nextStreamID+2j · `z` 0.
+Answer per op (joined with `;`): `skip` or `<resolved id|->|<return>|<dump>`. -/
+
+def parseTgt (s : String) : Option Req.Pool.H2MuxLane.Tgt :=
+  if s == "z" then some .zero
+  else if s.startsWith "k" then (s.drop 1).toNat?.map .ofCaller
+  else if s.startsWith "u" then (s.drop 1).toNat?.map .unopened
+  else none
+
+def parseB (s : String) : Option Bool := if s == "1" then some true else if s == "0" then some false else none
+
+def parseLOp (s : String) : Option Req.Pool.H2MuxLane.LOp :=
+  match s.splitOn "." with
+  | ["R", k] => do pure (.reserve (← k.toNat?))
+  | ["S", k, h, u, st] => do pure (.start (← k.toNat?) (← parseB h) (← parseB u) (← parseB st))
+  | ["U", k] => do pure (.release (← k.toNat?))
+  | ["C", k] => do pure (.cancel (← k.toNat?))
+  | ["B", k] => do pure (.closeBody (← k.toNat?))
+  | ["T"] => some .idleTimeout
+  | ["PH", t, kind, fin, tag] => do
+    let kd ← (match kind with | "0" => some Req.Pool.H2Mux.HKind.status2xx | "1" => some .status1xx | "2" => some .noStatus | _ => none)
+    pure (.pHeaders (← parseTgt t) kd (← parseB fin) (← tag.toNat?))
+  | ["PD", t, len, fin, tag] => do pure (.pData (← parseTgt t) (← len.toNat?) (← parseB fin) (← tag.toNat?))
+  | ["PR", t, code] => do pure (.pRst (← parseTgt t) (← code.toNat?))
+  | ["PW", t, ov] => do pure (.pWindowUpdate (← parseTgt t) (← parseB ov))
+  | ["PP", t] => do pure (.pPush (← parseTgt t))
+  | ["PG", t, code] => do pure (.pGoAway (← parseTgt t) (← code.toNat?))
+  | ["PS", m] => if m == "-" then some (.pSettings none) else m.toNat?.map (fun v => .pSettings (some v))
+  | ["PE"] => some .pEOF
+  | _ => none
+
+def laneH2Mux : List String → String
+  | [st, su, mc, n, ops] =>
+    match parseB st, parseB su, mc.toNat?, n.toNat?,
+          (if ops == "-" then some [] else (ops.splitOn ",").mapM parseLOp) with
+    | some st, some su, some mc, some n, some os =>
+      ";".intercalate (Req.Pool.H2MuxLane.runLane ⟨st, su⟩ mc n os)
+    | _, _, _, _, _ => "bad-op"
+  | _ => "bad-op"
+
 def lanes : List (String × (List String → String)) := [
+  ("c09h2mux", laneH2Mux),
   ("c09lockset", laneLockset),
   ("c09pair", lanePair),
   ("c09pool", lanePool),
